@@ -381,6 +381,40 @@ def part_histories(chk, st, dialects, enum):
     return True
 
 
+# text id -> finding whose consequence for the projection clause is listed under C06
+TEXT_FINDINGS = {"join-paren-nested": "K6"}
+
+
+def part_texts(chk, st, enum):
+    """the text family of C09 (constructs outside the typed AST: join spellings, alias column lists, UPDATE / MERGE / COPY spellings)
+    under the monitor, a handful of dialects"""
+    import c09_texts
+    dialects = ["ansi", "postgres", "sparksql", "tsql", "mysql", "snowflake", "non-validating"]
+    jobs = [(tid, sql, d) for tid, sql in c09_texts.TEXTS for d in dialects]
+    res = monitor.run_cases([{"sql": sql, "dialect": d, "metadata": None, "export": True} for _, sql, d in jobs], chunksize=16)
+    for (tid, sql, d), r in zip(jobs, res):
+        if "rejected" in r:
+            st.reject[d] += 1
+            continue
+        if "error" in r:
+            st.c["texts:" + r["error"]] += 1
+            continue
+        st.accept[d] += 1
+        chk.count("text:" + canon_json([sql, d]), bool(r["paths"]))
+        rec = {"sql": sql, "dialect": d, "metadata": None, "name": "text/" + tid}
+        fails = r["fails"]
+        fid = TEXT_FINDINGS.get(tid)
+        if fid and chk.finding(fid) and fails and all(f["class"] in (NOT_IN_LINEAGE, NOT_CONNECTED) for f in fails):
+            chk.known(fid)
+            st.c["known:" + fid] += 1
+            fails = []
+        if not handle_fails(chk, st, fails, rec):
+            return False
+        enum.add(rec, r["export"])
+    st.c["texts"] = len(c09_texts.TEXTS)
+    return True
+
+
 def replay_known(chk, st):
     """the stored witness of every recorded finding is replayed first (DESIGN §2.5 step 7)"""
     for e in chk.findings:
@@ -394,6 +428,8 @@ def replay_known(chk, st):
         stmts = w["sql"] if isinstance(w["sql"], list) else split_statements(w["sql"], w.get("dialect", "ansi"))
         d11 = d11_names_of(stmts, w.get("dialect", "ansi")) if e["id"] == "D11" else None
         ids = {classify(f, sql_text, [w["ast"]] if w.get("ast") else None, d11, w.get("dialect", "ansi")) for f in fails}
+        if e["id"] in TEXT_FINDINGS.values() and fails and all(f["class"] in (NOT_IN_LINEAGE, NOT_CONNECTED) for f in fails):
+            ids.add(e["id"])
         if e["id"] in ids:
             chk.known(e["id"])
         else:
@@ -416,6 +452,7 @@ def run(chk):
     ok = ok and part_statements(chk, drv, st, stmt_dialects, enum)
     ok = ok and part_chains(chk, drv, st, chain_dialects, enum)
     ok = ok and part_histories(chk, st, ["ansi", "non-validating"], enum)
+    ok = ok and part_texts(chk, st, enum)
     enum.flush()
     sqlimpl.close_pool()
     chk.coverage.update({"exhaustive": False, "distribution": st.as_dict(), "statement_dialects": stmt_dialects,
